@@ -204,6 +204,11 @@ func generate(prop string, seed uint64, run int, tier string) *Scenario {
 			sc.FO.PlainExpired = true
 		}
 
+		// C02: the same kind of backend under concurrent Gets (whatever happens, nothing may be fabricated)
+		if prop == "C02" && !sc.FO.DefaultBackend && chance(lr, 0.1) {
+			sc.FO.PlainExpired = true
+		}
+
 		// C03: an ExpireAll (invalidation) right before the Get; only for entries that are expired already, whose
 		// state it must not change
 		if prop == "C03" && len(sc.FO.Init) > 0 && sc.FO.Init[0].State == "stale" && !sc.FO.DefaultBackend && chance(lr, 0.15) {
